@@ -26,6 +26,18 @@ type Standin struct {
 }
 
 var propStandins = map[string][]Standin{
+	"C04": {{
+		Name: "payload-oracle", Pkg: "internal/index", TestFile: "search_standin_test.go", TestName: "TestC02Standin", OutEnv: "C02_OUT",
+		EnvQuick: []string{"C02_THEN=1", "C02_ANCHORS=1", "C02_ROUNDS=40", "C02_QUERIES=60"}, EnvThorough: []string{"C02_THEN=1", "C02_ANCHORS=1", "C02_ROUNDS=300", "C02_QUERIES=100"},
+		Bound:   "payload filters end to end (expression analysis, shortcut scan, sequence progress across chunks and directions, success/failure accounting, negation): the search-oracle stand-in of C02 (populations of up to 9 stream ids over 1-3 index files, 0-3 payload chunks per stream in either direction out of 10 chunk texts) where half of the payload atoms are THEN chains of 1-3 cdata/sdata elements over 11 expressions (literals, classes, repetition, alternation, fixed and variable length, with literal prefixes and suffixes) plus 8 expressions with assertions (^ $ \\A \\z \\b); compared with a plain left-to-right scan: each element is searched with Go's regexp in its direction's payload from where the previous match ended, and a match ending in chunk i puts the other direction's position after chunk i; also negated and combined with other filters; 40 (quick) / 300 (thorough) populations x 60 / 100 queries. Not generated: variables and captures, data filters without direction inside chains, converter outputs, sub-queries",
+		Timeout: 30 * time.Minute,
+	}},
+	"C03": {{
+		Name: "normal-form-oracle", Pkg: "internal/index", TestFile: "search_standin_test.go", TestName: "TestC02Standin", OutEnv: "C02_OUT",
+		EnvQuick: []string{"C02_THEN=1", "C02_ROUNDS=25", "C02_QUERIES=60"}, EnvThorough: []string{"C02_THEN=1", "C02_TAGS=1", "C02_ROUNDS=200", "C02_QUERIES=100"},
+		Bound:   "the meaning of the normal form end to end (the parts of normalisation that are not under contract: And, the clean* rewrites, time/flag/data atoms, THEN sequences and their negation, translation from text): generated query expressions of depth <= 3 over id/port/bytes/host(/mask)/protocol/time/data filters and THEN chains with AND, OR, NOT, lists and ranges are parsed, normalised and searched over generated populations (25 (quick) / 200 (thorough) populations x 60 / 100 queries); the streams found must be exactly those the expression as written accepts when evaluated directly on the stream's attributes and payload",
+		Timeout: 30 * time.Minute,
+	}},
 	"C06": {{
 		Name: "tag-search", Pkg: "internal/index", TestFile: "search_standin_test.go", TestName: "TestC02Standin", OutEnv: "C02_OUT",
 		EnvQuick: []string{"C02_TAGS=1", "C02_ROUNDS=40", "C02_QUERIES=60"}, EnvThorough: []string{"C02_TAGS=1", "C02_ROUNDS=300", "C02_QUERIES=100"},
